@@ -41,6 +41,17 @@ structure Zone where
   subnets : List SubnetDecl
 deriving Repr
 
+/-! ### documented defaults (tinydns-data / dnsrocks documentation; literals, never extracted) -/
+
+/-- default TTL of a record of wire type `t` emitted by a line of kind `prefix` without TTL field -/
+def defaultTTL (linePrefix : UInt8) (t : Nat) : Nat :=
+  if t = 6 then 2560                                   -- SOA (Z and . lines)
+  else if linePrefix = 0x26 ∨ linePrefix = 0x2e then 259200   -- & and . lines: NS and its glue
+  else 86400
+
+/-- default SOA timers: refresh, retry, expire, minimum -/
+def defaultSoaTimers : List Nat := [16384, 2048, 1048576, 2560]
+
 /-! ### client → location (C03) -/
 
 def v4Base : Nat := 0xffff * 2 ^ 32
